@@ -107,6 +107,18 @@ def build(d):
         return build_schema(d["cls"], d["props"])
     if k == "optional":
         return optional(build(d["key"]))
+    if k == "props":
+        import d42.declaration.types as TY
+        cls = getattr(TY, d["cls"], None)
+        if cls is None:
+            from d42.declaration import Props as cls
+        reg = {}
+        for kk, vv in d["items"]:
+            key = build(kk)
+            if not isinstance(key, str):
+                raise Unreachable("non-string registry key")
+            reg[key] = build(vv)
+        return cls(reg)
     if k == "error":
         import d42.validation.errors as E
         cls = getattr(E, d["cls"])
@@ -956,7 +968,41 @@ def oracle_C13(inp, meta=None):
     raise Unreachable("no C13 oracle for these inputs")
 
 
-ORACLES.update({"C14": oracle_C14, "C13": oracle_C13})
+def oracle_C15(inp, meta=None):
+    law = (meta or {}).get("law")
+    if "A" in inp:
+        A, B, C = build(inp["A"]), build(inp["B"]), build(inp["C"])
+        if law == "reflexive" or law is None:
+            if not (A == A) or (A != A):
+                return True, f"{A!r} is not equal to itself"
+        if law == "symmetric" or law is None:
+            if (A == B) != (B == A):
+                return True, f"A == B is {A == B} but B == A is {B == A}; A={A!r} B={B!r}"
+        if law == "transitive" or law is None:
+            if (A == B) and (B == C) and not (A == C):
+                return True, f"A == B and B == C but A != C; A={A!r} B={B!r} C={C!r}"
+        return False, "law holds on these schemas"
+    if "self" in inp and "other" in inp:
+        P, Q = build(inp["self"]), build(inp["other"])
+        if type(P) is type(Q):
+            if (P == Q) != (Q == P):
+                return True, f"{P!r} == {Q!r} is {P == Q} but the reverse is {Q == P}"
+            if not (P == P):
+                return True, f"{P!r} is not equal to itself"
+        return False, "== on these props is symmetric"
+    if "schema" in inp and "value" in inp:
+        S_, v = build(inp["schema"]), build(inp["value"])
+        if isinstance(v, Schema):
+            return False, "schema operand"
+        got = (S_ == v)
+        want = not validate(S_, v).has_errors()
+        if got != want or (S_ != v) == got:
+            return True, f"({S_!r} == {v!r}) is {got}, validates: {want}, != gives {S_ != v}"
+        return False, "== means validates"
+    raise Unreachable("no C15 oracle for these inputs")
+
+
+ORACLES.update({"C14": oracle_C14, "C13": oracle_C13, "C15": oracle_C15})
 ORACLES.update({"C10": oracle_C10, "C11": oracle_C11, "C01": oracle_C01, "C04": oracle_C04,
                 "C05": oracle_C05, "C12": oracle_C12})
 
